@@ -154,7 +154,7 @@ func (f *powerFile) WriteAt(b []byte, off int64) (int, error) {
 }
 
 func (f *powerFile) Write(b []byte) (int, error) {
-	f.p.point()
+	// gob payload: not a failure point of its own (see crashFile.Write)
 	n, err := f.File.Write(b)
 	if err == nil {
 		f.pf().pending = append(f.pf().pending, pfOp{off: f.pos, data: append([]byte{}, b...)})
